@@ -34,6 +34,9 @@ ID = "C13"
 LEVEL = "fault_enumeration"
 DESIGN_REF = "DESIGN.md#C13"
 TECHNIQUE = "runtime monitoring under systematic fault injection: outcome-class monitor + sys.monitoring step budget on every (seed, site, fault kind, entry point)"
+LEVEL_TEXT = (
+    'Fault enumeration: every dictionary entry / array element / stream / file offset of eleven feature-covering seed documents x every fault kind x every entry point is executed under an outcome monitor and a line-count budget (the quick tier is a 1/12 stride sample of the same enumeration, phase chosen by the seed). Right level: single structural faults of a fixed seed family are a finite space that can be enumerated completely; what is not covered is multi-fault damage and other seeds.'
+)
 RULE = (
     "deterministic enumeration: seeds x fault sites (every dict entry / array element of every object, every stream, file "
     "offsets) x fault kinds (null true 0 -1 2^31 1.5 name string [] [0] {} new-stream self-ref missing-ref 2-cycle 3-cycle "
